@@ -108,8 +108,9 @@ func (i Ifc) Key() string { return keyOf(i.V) }
 
 // StructVal is a struct value (copied out of a cell).
 type StructVal struct {
-	F map[int]AVal
-	T types.Type
+	F    map[int]AVal
+	T    types.Type
+	Base *Sym // fields not in F are fields of this symbolic struct
 }
 
 func (s StructVal) Key() string {
